@@ -434,7 +434,10 @@ theorem toBool_spec (c : List Nat) (hz : ∀ x ∈ c, x ≠ 0) : toBoolL c c = f
     · intro x; refine ⟨?_, x⟩
       have := congrArg List.length x
       simpa using this
+  have lits : Generated.toBoolFalseLit = [102, 97, 108, 115, 101] ∧ Generated.toBoolZeroLit = [48] := ⟨rfl, rfl⟩
   unfold toBoolL toBoolFalse
+  rw [lits.1, lits.2]
+  simp only [List.length_cons, List.length_nil, Nat.zero_add, Nat.reduceAdd]
   by_cases c1 : c.length = 0 ∨ (c.length = 5 ∧ strcmpL (c.map toLower) [102, 97, 108, 115, 101] = 0) ∨ c = [48]
   · simp only [c1, if_true, true_iff]
     rcases c1 with a | a | a
